@@ -5,6 +5,7 @@ import Model.C07.Bip32
 import Model.C07.Instance
 import Model.C07.DerPath
 import Model.C07.Bip85
+import Model.C07.Serial
 import Model.C07.Shake256
 import Generated.Bip32
 open Btc Btc.Bip32
@@ -82,6 +83,8 @@ def bip32Op : List String → Option String
   | "bip32.valid" :: x => do
     pure (match assertValid (envOf hmacSha512) (← xkeyOf x) with | .ok _ => "ok" | .error e => "err " ++ e.name)
   | ["bip32.root", seed, ver] => do pure (rX (rootFromSeed (envOf hmacSha512) (← fromHex? seed) (← fromHex? ver)))
+  | "bip32.ser" :: x => do pure (match serialize (envOf hmacSha512) (← xkeyOf x) with | .ok b => "ok " ++ toHex b | .error _ => "err any")
+  | ["bip32.parse", b] => do pure (match parse (envOf hmacSha512) (← fromHex? b) with | .ok x => "ok " ++ renderX x | .error _ => "err any")
   | ["bip32.rootm", mac, seed, ver] => do pure (rX (rootFromSeed (envOf (← macOf mac)) (← fromHex? seed) (← fromHex? ver)))
   | "bip32.crack" :: mac :: v :: d :: fp :: i :: cc :: k :: c => do
     pure (rX (crack (envOf (← macOf mac)) (← xkeyOf [v, d, fp, i, cc, k]) (← xkeyOf c)))
